@@ -117,10 +117,15 @@ def obs_events(chk):
     rng = np.random.RandomState(1400 + chk.seed)
     batch = obs.Batch('ObsC14')
     reps = 30 if chk.tier == 'quick' else 300
-    for rep in range(reps):
-        N = int(rng.choice([6, 9, 16, 33, 64, 128]))
+    sizes = [6, 9, 16, 33, 64, 127, 128]
+    grid = [(N, c) for N in sizes for c in (False, True)]
+    for rep in range(reps + len(grid)):
+        if rep < len(grid):
+            N, cplx = grid[rep]
+        else:
+            N = int(rng.choice(sizes))
+            cplx = bool(rng.randint(2))
         p = int(rng.randint(1, min(N // 2, 20) + 1))
-        cplx = bool(rng.randint(2))
         kind = int(rng.randint(3))
         t = np.arange(N)
         if kind == 2:      # noiseless sum of p exponentials (complex) / p//2 sinusoids (real)
